@@ -99,31 +99,38 @@ def tlc_trace(recs, tag, timeout=600):
 
 
 def validate(ctx, scens, label):
-    """TLC validates the logs: first all scenarios of the group in one run (Reset records between them); when that run
-    does not accept, every scenario is validated on its own so that each rejected one is reported.
+    """TLC validates the logs, all scenarios of a batch in one run (Reset records between them).  When the run stops at
+    an inexplicable record, the scenarios before it were accepted, that scenario is reported, and validation goes on
+    with the ones after it.  (A run that times out is repeated scenario by scenario.)
     Returns (number accepted, list of (scenario, info) rejected)."""
     todo = [s for s in scens if s.get("events")]
-    if not todo:
-        return 0, []
-    recs, spans = prep(todo)
-    try:
-        ok, info, r = tlc_trace(recs, label, timeout=300)
+    acc, rejected = 0, []
+    while todo:
+        recs, spans = prep(todo)
+        try:
+            ok, info, r = tlc_trace(recs, label, timeout=400)
+        except vlib.ToolError as e:
+            if "timed out" not in str(e):
+                raise
+            with cf.ThreadPoolExecutor(max_workers=4) as tp:
+                futs = [tp.submit(tlc_trace, prep([o])[0], label, 300) for o in todo]
+                for o, f in zip(todo, futs):
+                    ok1, info1, r1 = f.result()
+                    ctx.add_tlc("trace validation: %s scenario %s" % (label, o["scenario"]), r1)
+                    if ok1:
+                        acc += 1
+                    else:
+                        rejected.append((o, dict(info1, record_in_scenario=info1.get("rejected_at", 1) - 1)))
+            break
         ctx.add_tlc("trace validation: %s (%d scenarios, %d records)" % (label, len(todo), len(recs)), r)
         if ok:
-            return len(todo), []
-    except vlib.ToolError as e:
-        if "timed out" not in str(e):
-            raise
-    rejected, acc = [], 0
-    with cf.ThreadPoolExecutor(max_workers=4) as tp:
-        futs = [tp.submit(tlc_trace, prep([o])[0], label, 300) for o in todo]
-        for o, f in zip(todo, futs):
-            ok, info, r = f.result()
-            ctx.add_tlc("trace validation: %s scenario %s" % (label, o["scenario"]), r)
-            if ok:
-                acc += 1
-            else:
-                rejected.append((o, dict(info, record_in_scenario=info.get("rejected_at", 1) - 1)))
+            acc += len(todo)
+            break
+        at = info.get("rejected_at", 1)
+        k = next((i for i, (a, b) in enumerate(spans) if a <= at <= b), len(todo) - 1)
+        acc += k
+        rejected.append((todo[k], dict(info, record_in_scenario=at - spans[k][0])))
+        todo = todo[k + 1:]
     return acc, rejected
 
 
@@ -180,7 +187,7 @@ def run(tier, replay):
     # ---------------------------------------------------------------- 1. TLC jobs run beside the harness work
     pool = cf.ThreadPoolExecutor(max_workers=3)
     jobs = {}
-    mc_cfgs = [("MC_Shutdown_thorough.cfg" if thorough else "MC_Shutdown_quick.cfg", "accept loop/run thread fair only", 4)]
+    mc_cfgs = [("MC_Shutdown_thorough.cfg" if thorough else "MC_Shutdown_quick.cfg", "accept loop/run thread fair only", 8 if thorough else 4)]
     mc_cfgs.append(("MC_Shutdown_allfair_thorough.cfg" if thorough else "MC_Shutdown_allfair.cfg", "every process fair: drain after return", 2))
     for cfg, note, w in mc_cfgs:
         jobs[("mc", cfg, note)] = pool.submit(tlc_job, "MC_Shutdown.tla", cfg, D, workers=w, coverage=True,
